@@ -229,6 +229,11 @@ def hostile_templates():
     a("literal", "'m'", "\"m\"", "b'm'", "f'{m}'", "f'{m'", "'m", "\"\"\"m\"\"\"", "r'm'", "u'm'", "'m'*2", "'m'+'s'", "'a' 'b'", "'%s' % m", "'{}'.format(m)",
       "0x10*m", "0b11*m", "0o17*m", "1_000*m", "1__0*m", "0777*m", "00*m", "1.*m", ".5*m", "1.e3*m", "1e+3*m", "1E3*m", "1e*m", "0x*m", "1.2.3*m", "١٢٣*m",
       "２*m", "1L*m", "1l*m", "10**2*m", "1e3j")
+    # a string literal that reaches sympy inside a container operand is sympified, i.e. parsed and evaluated once more with the
+    # full sympy namespace (Symbol * tuple -> sympify(tuple) -> sympify(str)): the sandbox monitors must see nothing nested
+    a("string-in-container", "m*('1+1',)", "m/('s',)", "m/['2']", "m*['kg', 's']", "('s',)*m", "m**('2',)", "m+('s',)", "m-['s']", "m*{'s'}", "m*{'a': 's'}",
+      "m*(('1',),)", "sqrt(('m',))", "sqrt(['m'])", "m*(\"s\",)", "m*(b's',)", "m*(f'{2}',)", "m*('lambda: 1',)", "m*('Symbol(\"q\")',)", "m*('1/0',)",
+      "m*('__name__',)", "m/('dir()',)", "m*('len(\"ab\")',)", "m*('m', 's', 'kg')", "Symbol('m')*('s',)", "Integer(2)*('m',)", "Float(2)*['m']", "Rational(1,2)*('m',)")
     a("container", "m,s", "(m,s)", "[m]", "{m}", "{m:s}", "()", "( )", "[]", "{}", "(m,)", "m,", ",m", "[m,s]*2", "(m)*(s)", "((m))", "(m)(s)")
     a("incomplete", "(m", "m)", "m**", "**m", "*", "/", "m*", "*m", "m/", "/m", "m**/s", "m*/s", "m//", "(", ")", "((m)", "m))", "m**(", "sqrt(", "sqrt(m",
       "m..s", "m.", ".m", "m s", "3 m", "m 3", "3m", "m3 s", "m**2s", "2**", "1/", "m**-", "m**+", "m***s", "m****2", "m//*s")
